@@ -5,6 +5,7 @@ import (
 	"encoding/binary"
 	"fmt"
 	"io"
+	"os"
 	"reflect"
 	"runtime"
 	"strings"
@@ -104,7 +105,7 @@ func runC05(r *Result, d *drv.Driver, tier string, seed int64, replay string) {
 	if tier == "thorough" {
 		nValid = 600
 	}
-	r.Rule = fmt.Sprintf("per-call allocation (runtime.MemStats.TotalAlloc delta) of the real Decode on: valid messages; every item position of every message (string, bytes, structure, skipped, fixed) with its declared length replaced by each of {0, 1, 2^16, 2^20, 2^30, 2^31, 2^32-8, 2^32-1}, with and without truncating the input right after that header, the same lie under another item type (structure / text / bytes), every Integer / Enumeration value (counts such as Batch Count) set to 2^16 / 2^20 / 2^22, and the same with every enclosing structure's length inflated consistently (so the lying item fits its parents); long values lying about their length while backed by 4-12 KiB of real payload; random mutations; every one of these measurements is also compared with what the cost semantics of the decoder model (KmipModel/DecodeCost.lean, driver `deccost`) charges for that very input - the real allocation must stay below the model's charge with its fixed part taken as 16 KiB, and the charge below the proved bound; honest messages of 64 KiB, 512 KiB and 4 MiB (long byte string, long text string, long run of items) whose per-byte cost must not grow with their size (<= 4x the 64 KiB value + 8). "+
+	r.Rule = fmt.Sprintf("per-call allocation (runtime.MemStats.TotalAlloc delta) of the real Decode on: valid messages; every item position of every message (string, bytes, structure, skipped, fixed) with its declared length replaced by each of {0, 1, 2^16, 2^20, 2^30, 2^31, 2^32-8, 2^32-1}, with and without truncating the input right after that header, the same lie under another item type (structure / text / bytes), every Integer / Enumeration value (counts such as Batch Count) set to 2^16 / 2^20 / 2^22, and the same with every enclosing structure's length inflated consistently (so the lying item fits its parents); long values lying about their length while backed by 4-12 KiB of real payload; random mutations; every one of these measurements is also compared with what the cost semantics of the decoder model (KmipModel/DecodeCost.lean, driver `deccost`) charges for that very input - the real allocation must stay below the model's charge with its fixed part taken as 16 KiB, and the charge below the proved bound; a transport that starts failing for good (temporary / timeout net.Error, os.ErrDeadlineExceeded) at every 8-byte boundary and inside every item of two messages; honest messages of 64 KiB, 512 KiB and 4 MiB (long byte string, long text string, long run of items) whose per-byte cost must not grow with their size (<= 4x the 64 KiB value + 8). "+
 		"Violation: allocation > %d x input length + %d bytes (the model's linear bound with A = %d). distinct = distinct input; non-trivial = carries a hostile length", allocA, allocB, allocA)
 	types := allDecodeTypes()
 	g := gen.New(seed)
@@ -312,6 +313,118 @@ func runC05(r *Result, d *drv.Driver, tier string, seed int64, replay string) {
 	}
 	c05Scaling(r)
 	c05Fragmented(r)
+	c05Faults(r)
+}
+
+type tempNetErr struct{ timeout bool }
+
+func (e tempNetErr) Error() string   { return "harness: transient transport fault" }
+func (e tempNetErr) Timeout() bool   { return e.timeout }
+func (e tempNetErr) Temporary() bool { return true }
+
+// faultReader delivers data[:cut] (in pieces of `step`), then reports the same transport fault on every further Read - a read
+// deadline that has passed stays passed - `persist` times, and a permanent error after that (so that a Decode that keeps
+// asking still comes back and can be measured)
+type faultReader struct {
+	data    []byte
+	cut     int
+	step    int
+	fault   error
+	persist int
+	pos     int
+	faults  int
+}
+
+func (f *faultReader) Read(p []byte) (int, error) {
+	if f.pos < f.cut {
+		n := f.step
+		if n > len(p) {
+			n = len(p)
+		}
+		if n > f.cut-f.pos {
+			n = f.cut - f.pos
+		}
+		copy(p, f.data[f.pos:f.pos+n])
+		f.pos += n
+		return n, nil
+	}
+	f.faults++
+	if f.faults > f.persist {
+		return 0, io.ErrClosedPipe
+	}
+	return 0, f.fault
+}
+
+// c05Faults: the transport fails in the middle of a message - at every 8-byte boundary and inside every item, string payloads
+// included - with an error that stays (a passed read deadline: net.Error, Timeout() and Temporary() both true; a temporary
+// error that is no timeout; os.ErrDeadlineExceeded itself). Whatever Decode does about the fault, what it allocates is still
+// bounded by the bytes that DID arrive, and it does not report success.
+func c05Faults(r *Result) {
+	ver := kmip.ProtocolVersion{Major: 1, Minor: 4}
+	types := allDecodeTypes()
+	msgs := []struct {
+		typ string
+		v   interface{}
+	}{
+		{"Request", &kmip.Request{Header: kmip.RequestHeader{Version: ver, ClientCorrelationValue: strings.Repeat("c", 300), BatchCount: 1},
+			BatchItems: []kmip.RequestBatchItem{{Operation: kmip.OPERATION_GET, UniqueID: bytes.Repeat([]byte{5}, 21), RequestPayload: kmip.GetRequest{UniqueIdentifier: strings.Repeat("u", 70)}}}}},
+		{"Response", &kmip.Response{Header: kmip.ResponseHeader{Version: ver, TimeStamp: time.Unix(1000000000, 0), BatchCount: 1},
+			BatchItems: []kmip.ResponseBatchItem{{Operation: kmip.OPERATION_DECRYPT, ResultMessage: strings.Repeat("m", 50), ResponsePayload: kmip.DecryptResponse{UniqueIdentifier: "k", Data: bytes.Repeat([]byte{7}, 5000)}}}}},
+	}
+	faults := []struct {
+		name string
+		err  error
+	}{
+		{"net.Error with Timeout() and Temporary() true (a passed read deadline)", tempNetErr{true}},
+		{"net.Error with Temporary() true only", tempNetErr{false}},
+		{"os.ErrDeadlineExceeded", os.ErrDeadlineExceeded},
+	}
+	for _, m := range msgs {
+		var eb bytes.Buffer
+		if err := kmip.NewEncoder(&eb).Encode(m.v); err != nil {
+			r.find(Finding{Kind: "disagreement", What: "cannot encode the fault-injection message", Input: m.typ, Actual: err.Error()})
+			continue
+		}
+		data := eb.Bytes()
+		cuts := map[int]bool{}
+		for c := 0; c < len(data); c += 8 {
+			cuts[c] = true
+		}
+		for _, nd := range mut.All(mut.Parse(data)) {
+			for _, c := range []int{nd.Off + 3, nd.Off + 5, nd.Off + 8, nd.Off + 9, nd.Off + 8 + int(nd.Len)/2, nd.End - 1} {
+				if c > 0 && c < len(data) {
+					cuts[c] = true
+				}
+			}
+		}
+		nviol := 0
+		for cut := range cuts {
+			for fi, ft := range faults {
+				if nviol >= 3 {
+					break
+				}
+				key := fmt.Sprintf("fault: %s of %d bytes, %d bytes delivered (in pieces of %d), then every Read fails with %s", m.typ, len(data), cut, []int{1 << 20, 7}[fi%2], ft.name)
+				crumb("C05 " + key)
+				r.eval(key, true)
+				fr := &faultReader{data: data, cut: cut, step: []int{1 << 20, 7}[fi%2], fault: ft.err, persist: 3000}
+				alloc, class := measureDecodeFrom(types[m.typ], fr)
+				r.Stats["fault-measurements"]++
+				bound := uint64(allocA*cut + allocB)
+				in := map[string]string{"type": m.typ, "bytes": hx(data[:min(len(data), 512)]), "delivery": key}
+				switch {
+				case class == "timeout":
+					r.Stats["fault-measurements-not-finished-in-20s"]++
+				case alloc > bound:
+					nviol++
+					r.find(Finding{Kind: "violation", What: "Decode allocated more than the linear bound in the bytes received after the transport began to fail: the allocation follows the number of failing reads", Input: in,
+						Expect: fmt.Sprintf("<= %d", bound), Actual: fmt.Sprintf("%d (%d failing reads)", alloc, fr.faults)})
+				case class == "ok":
+					nviol++
+					r.find(Finding{Kind: "violation", What: "Decode reported success for a message the transport never delivered in full", Input: in, Expect: "an error", Actual: "ok"})
+				}
+			}
+		}
+	}
 }
 
 // c05Fragmented: "a fixed linear function of the number of input bytes actually available" - however those bytes arrive. The
